@@ -1022,6 +1022,13 @@ fn dump_crate(tcx: TyCtxt<'_>) -> J {
             let body = tcx.optimized_mir(did);
             let cx = MirCx { tcx, body, did };
             o.push(("mir", cx.dump()));
+            // promoted constants (`&TokenEnum::Comma`, `&[..]`): small bodies that build the constant
+            let mut proms = vec![];
+            for pbody in tcx.promoted_mir(did).iter() {
+                let pcx = MirCx { tcx, body: pbody, did };
+                proms.push(pcx.dump());
+            }
+            o.push(("promoted", J::A(proms)));
         }
         if !matches!(dk, DefKind::Closure) {
             // closures are inlined in their parent's HIR tree
